@@ -523,11 +523,15 @@ fn run_session_case(ctx: &mut Ctx, rng: &mut Rng, resp: &[Vec<u8>], untagged: &[
             }
         }
         server.extend(part);
+        if last && (ending == 3 || ending == 4) {
+            // the peer falls silent in the middle of a further line
+            server.extend_from_slice(*rng.pick(&[&b"* 2 EXI"[..], &b"* 1 FETCH (BODY[] {5}\r\nab"[..], &b"*"[..], &b"* OK\r"[..]]));
+        }
         let abandon_after = if rng.chance(1, 6) { Some(rng.usize(6)) } else { None };
         plans.push(CmdPlan { cmd, abandon_after });
     }
     let _ = resp;
-    let eof_at_end = ending == 0 || rng.chance(1, 4);
+    let eof_at_end = ending == 0 || (ending != 3 && ending != 4 && rng.chance(1, 4));
     let mut io = MockIo::default();
     io.incoming = server.iter().copied().collect();
     io.rscript = read_schedule(rng, server.len()).into();
@@ -558,6 +562,7 @@ fn run_session_case(ctx: &mut Ctx, rng: &mut Rng, resp: &[Vec<u8>], untagged: &[
         let mut polls: Vec<String> = vec![];
         let mut items = vec![];
         let mut end = "limit";
+        let mut stuck_once = false;
         {
             let mut stream = client.verif_call(plan.cmd);
             let maxp = 400 + 4 * server.len();
@@ -601,9 +606,17 @@ fn run_session_case(ctx: &mut Ctx, rng: &mut Rng, resp: &[Vec<u8>], untagged: &[
                     end = "error";
                     break;
                 }
+                // a Pending is final only when nothing is scripted any more and the previous poll was
+                // already Pending in that situation (the first one may have consumed the last
+                // scripted 'not ready' of a write or flush)
                 if pending && silent {
-                    end = "silent";
-                    break;
+                    if stuck_once {
+                        end = "silent";
+                        break;
+                    }
+                    stuck_once = true;
+                } else {
+                    stuck_once = false;
                 }
             }
         }
@@ -684,6 +697,18 @@ fn run_session_case(ctx: &mut Ctx, rng: &mut Rng, resp: &[Vec<u8>], untagged: &[
                         &op,
                     );
                 }
+            }
+            if ends[k] == "silent" && !completed && q + got.len() < frames.len() {
+                ctx.fail(
+                    "withheld",
+                    format!(
+                        "command {} (tag {}) is Pending with a silent peer although response number {} of the server's output has been received completely and not been delivered",
+                        k + 1,
+                        tag,
+                        q + got.len() + 1
+                    ),
+                    &op,
+                );
             }
             if ends[k] == "done" && !completed {
                 ctx.fail(
